@@ -102,6 +102,17 @@ fn byte_to_ascii(byte: &u8) -> String {
     }
 }
 
+/// The reader of `(escaped)` expectations ignores a trailing ` (no-eol)` of the
+/// expression (Cram compatibility). An escaped rendering that itself ends in
+/// ` (no-eol)` is therefore written with its closing parenthesis as an escape
+/// sequence, so that it is read back as part of the line.
+pub(crate) fn keep_trailing_no_eol(escaped: String) -> String {
+    match escaped.strip_suffix(" (no-eol)") {
+        Some(head) => format!("{head} (no-eol\\x29"),
+        None => escaped,
+    }
+}
+
 /// Renders given line either with escape sequences (if it contains non-printable
 /// characters) and denoted as `(escaped)` - or as-is.
 fn escaped_expectation_ascii(line: &[u8]) -> String {
@@ -110,6 +121,7 @@ fn escaped_expectation_ascii(line: &[u8]) -> String {
     if encoded == escaped {
         encoded
     } else {
+        let escaped = keep_trailing_no_eol(escaped);
         format!("{escaped} (escaped)")
     }
 }
@@ -149,6 +161,7 @@ fn escaped_expectation_unicode(line: &[u8]) -> String {
     if encoded == escaped {
         encoded
     } else {
+        let escaped = keep_trailing_no_eol(escaped);
         format!("{escaped} (escaped)")
     }
 }
